@@ -96,6 +96,7 @@ class Interp:
         self.cur_line = 0
         self.cur_file = ""
         self.loop_specs: dict = {}  # (qualname, ordinal) -> LoopSpec
+        self.lenient = False  # abstract mode: opaque leaves, lazy objects, bounded abstract loops
         self.inline_only = None  # optional set of qualnames allowed to be inlined
 
     # ------------------------------------------------------------------ utilities
@@ -160,7 +161,12 @@ class Interp:
             if v.ndim == 0:
                 return self.truth(mk(v.elem(), v.dtype))
             raise Unsupported("truth value of an array")
-        if isinstance(v, (Obj, Opaque, WeakRef, BoundMethod)):
+        if isinstance(v, Opaque):
+            if v.tag.startswith("h5") or not self.lenient:
+                return True
+            self.path.assume(z3.Implies(v.none_var(), z3.Not(v.truth_var())))
+            return v.truth_var()
+        if isinstance(v, (Obj, WeakRef, BoundMethod, AbsObj)):
             return True
         if isinstance(v, (type, types.FunctionType, types.ModuleType, enum.Enum, uuid.UUID)):
             return True
@@ -173,7 +179,25 @@ class Interp:
             return z3.Not(v.present)
         if isinstance(v, DynV):
             return dyn_sort().is_none(v.e)
+        if isinstance(v, Opaque) and self.lenient and not v.tag.startswith("h5") and v.cls is None:
+            self.path.assume(z3.Implies(v.none_var(), z3.Not(v.truth_var())))
+            return v.none_var()
         return False
+
+    def opaque_bool(self, key, label):
+        cache = self.path.ghost.setdefault("opaque_bools", {})
+        if key not in cache:
+            cache[key] = z3.Bool(fresh_name(label))
+        return cache[key]
+
+    def event(self, kind, **payload):
+        payload["where"] = self.where()
+        self.path.events.append((kind, payload))
+
+    def mutation(self, target, how):
+        """Record an in-place mutation of an abstract object."""
+        if isinstance(target, Opaque):
+            self.event("mutate", target=target.tag, frozen=bool(target.frozen), how=how)
 
     def unwrap(self, v):
         """Force an Optional value: None or the value (branches on presence)."""
@@ -199,6 +223,10 @@ class Interp:
             from . import models_np
 
             return models_np.elementwise2(self, a, b, "eq")
+        if self.lenient and (isinstance(a, Opaque) or isinstance(b, Opaque)):
+            if a is b:
+                return True
+            return self.opaque_bool(("eq", id(a) if isinstance(a, (Opaque, Obj)) else repr(a), id(b) if isinstance(b, (Opaque, Obj)) else repr(b)), "eq?")
         if isinstance(a, DynV) or isinstance(b, DynV):
             from .values import dyn_from
 
@@ -360,6 +388,12 @@ class Interp:
             self.raise_(TypeError)
         if isinstance(f, WeakRef):
             return maybe(f.alive, f.target)
+        if isinstance(f, Opaque):
+            if self.lenient:
+                if getattr(f, "maybe_method", None) is not None:
+                    return f.maybe_method(self, args, kwargs)
+                return Opaque(f"{f.tag}()")
+            raise Unsupported(f"call of opaque value {f.tag}")
         if isinstance(f, BoundMethod):
             if f.self_val is not None or f.owner is not None:
                 return self.call_real(f.func, [f.self_val] + list(args), kwargs, frame, cls_ctx=f.owner)
@@ -385,7 +419,14 @@ class Interp:
             return self.call_repo(f, args, kwargs, frame, cls_ctx)
         name = getattr(f, "__qualname__", getattr(f, "__name__", repr(f)))
         mod = getattr(f, "__module__", "")
+        if self.lenient:
+            self.ex.note("opaque-call", f"{mod}.{name}")
+            return self.opaque_result(f"{mod}.{name}()", list(args) + list(kwargs.values()))
         raise Unsupported(f"call to unmodelled callable {mod}.{name}")
+
+    def opaque_result(self, tag, inputs):
+        ef = any(isinstance(x, Opaque) and x.elem_frozen for x in inputs)
+        return Opaque(tag, frozen=False, elem_frozen=False if not ef else False)
 
     def call_repo(self, f, args, kwargs, frame, cls_ctx=None):
         f = reflect.unwrap(f)
@@ -445,6 +486,8 @@ class Interp:
             if name == "__class__" and v.cls is not None:
                 return v.cls
             self.raise_(AttributeError, f"{self.where()} {v.tag}.{name}")
+        if isinstance(v, Opaque) and self.lenient and not v.tag.startswith("h5"):
+            return self.getattr_opaque(v, name, frame)
         if hasattr(v, "guard"):
             v.guard(self)
         key = None
@@ -482,6 +525,48 @@ class Interp:
                 lambda interp, a, kw, _g=got: interp.call_concrete_method(_g, a, kw), f"{type(v).__name__}.{name}"
             )
         return self.lift_const(got) if isinstance(got, (list, dict)) and isinstance(v, types.ModuleType) else got
+
+    MUTATORS = frozenset("append extend insert remove pop clear update setdefault popitem sort reverse add discard __setitem__ __delitem__".split())
+
+    def getattr_opaque(self, v, name, frame):
+        if name in v.attrs:
+            return v.attrs[name]
+        cls = v.cls
+        if cls is not None and inspect.isclass(cls):
+            raw, owner = None, None
+            for k in cls.__mro__:
+                if name in k.__dict__:
+                    raw, owner = k.__dict__[name], k
+                    break
+            if isinstance(raw, property) and raw.fget is not None and reflect.is_repo_function(raw.fget):
+                return self.call_repo(raw.fget, [v], {}, frame, cls_ctx=owner)
+            if isinstance(raw, types.FunctionType) and reflect.is_repo_function(raw):
+                return BoundMethod(raw, v, owner)
+            if isinstance(raw, classmethod):
+                return BoundMethod(raw.__func__, cls, owner)
+            if isinstance(raw, staticmethod):
+                return raw.__func__
+            if raw is not None and not callable(raw) and not isinstance(raw, property):
+                return self.lift_const(raw)
+        # data attribute (lazily materialised) or a method of an unknown object
+        def method_call(interp, a, kw, _v=v, _n=name):
+            if _n in Interp.MUTATORS:
+                interp.mutation(_v, _n)
+                return Opaque(f"{_v.tag}.{_n}()", frozen=_v.elem_frozen, elem_frozen=_v.elem_frozen)
+            if _n in ("copy", "keys", "values", "items"):
+                # shallow: a new container holding the same elements
+                return Opaque(f"{_v.tag}.{_n}()", frozen=False, elem_frozen=_v.elem_frozen, origin=_v)
+            if _n == "get":
+                return _v.child(f"{_v.tag}.get()")
+            interp.ex.note("opaque-call", f"<{_v.tag}>.{_n}")
+            return Opaque(f"{_v.tag}.{_n}()", frozen=False, elem_frozen=_v.elem_frozen)
+
+        if name in Interp.MUTATORS or name in ("copy", "keys", "values", "items", "get"):
+            return EngineCallable(method_call, f"{v.tag}.{name}")
+        child = v.child(f"{v.tag}.{name}")
+        child.maybe_method = method_call
+        v.attrs[name] = child
+        return child
 
     def call_concrete_method(self, bound, args, kwargs):
         """Method of a concrete Python value with concrete arguments (str.replace, dict.get on
@@ -570,6 +655,21 @@ class Interp:
                 self.call_repo(raw.fset, [obj, value], {}, frame, cls_ctx=owner)
                 return
             obj.fields[name] = value
+            return
+        if isinstance(obj, Opaque) and self.lenient:
+            cls = obj.cls
+            if cls is not None and inspect.isclass(cls):
+                for k in cls.__mro__:
+                    raw = k.__dict__.get(name)
+                    if isinstance(raw, property):
+                        if raw.fset is None:
+                            self.raise_(AttributeError)
+                        self.call_repo(raw.fset, [obj, value], {}, frame, cls_ctx=k)
+                        return
+                    if raw is not None:
+                        break
+            self.event("setattr", target=obj.tag, name=name, frozen=bool(obj.frozen))
+            obj.attrs[name] = value
             return
         if isinstance(obj, AbsObj):
             if "__setattr__" in obj.methods:
@@ -847,6 +947,11 @@ class Interp:
             return list(it)
         if inspect.isclass(it) and issubclass(it, enum.Enum):
             return list(it)
+        if isinstance(it, Opaque) and self.lenient:
+            # abstract loop: 0, 1 or 2 arbitrary elements (bounded; reported in the evidence)
+            self.ex.note("abstract-loop", f"iteration over <{it.tag}> unrolled 0..2 times with arbitrary elements")
+            k = self.path.choose(3, f"abstract-loop@{self.cur_line}")
+            return [it.child(f"{it.tag}[{i}]", cls=getattr(it, "elem_cls", None)) for i in range(k)]
         raise Unsupported(f"iteration over {type(it).__name__} at {self.where()}")
 
     # ------------------------------------------------------------------ assignment targets
@@ -878,6 +983,8 @@ class Interp:
             vals = [models_np.index_first(self, value, i) for i in range(value.shape[0])]
         elif isinstance(value, list):
             vals = value
+        elif isinstance(value, Opaque) and self.lenient:
+            vals = [value.child(f"{value.tag}[{i}]") for i in range(n)]
         else:
             raise Unsupported(f"unpacking of {type(value).__name__}")
         if len(vals) != n:
@@ -944,6 +1051,10 @@ class Interp:
                     raise Unsupported("** of a symbolic map in dict display")
                 continue
             kv = self.ev(k, frame)
+            if not self.is_concrete(kv) and self.lenient:
+                for vn in node.values:
+                    self.ev(vn, frame)
+                return Opaque("dict-display")
             if not self.is_concrete(kv):
                 raise Unsupported("dict display with symbolic key")
             d.items[kv] = self.ev(v, frame)
@@ -1004,6 +1115,8 @@ class Interp:
             from . import models_np
 
             return models_np.unop(self, node.op, v)
+        if isinstance(v, Opaque) and self.lenient:
+            return Opaque(f"unop({v.tag})")
         if isinstance(node.op, ast.USub):
             if isinstance(v, SV):
                 return mk(-to_z3(v, "int" if v.k in BOOLK else None), "real" if v.k == "real" else "int")
@@ -1032,6 +1145,8 @@ class Interp:
 
         if isinstance(a, Arr) or isinstance(b, Arr):
             return models_np.binop(self, op, a, b)
+        if self.lenient and (isinstance(a, Opaque) or isinstance(b, Opaque)):
+            return Opaque(f"binop({type(op).__name__})")
         if isinstance(a, DynV) or isinstance(b, DynV):
             return self.dyn_binop(op, a, b)
         ka, kb = kind_of(a), kind_of(b)
@@ -1151,6 +1266,8 @@ class Interp:
             return self.neg(self.contains(b, a))
         if isinstance(a, Arr) or isinstance(b, Arr):
             return models_np.compare(self, op, a, b)
+        if self.lenient and (isinstance(a, Opaque) or isinstance(b, Opaque)) and not isinstance(op, (ast.Eq, ast.NotEq)):
+            return self.opaque_bool(("cmp", type(op).__name__, id(a), id(b)), "cmp?")
         if isinstance(op, ast.Eq):
             return self.eq(a, b)
         if isinstance(op, ast.NotEq):
@@ -1182,6 +1299,10 @@ class Interp:
         if a is None or b is None:
             other = b if a is None else a
             return self.is_none(other)
+        if self.lenient and (isinstance(a, Opaque) or isinstance(b, Opaque)) and a is not b:
+            if isinstance(a, (bool, enum.Enum, str, int)) or isinstance(b, (bool, enum.Enum, str, int)) or (isinstance(a, Opaque) and isinstance(b, Opaque)):
+                return self.opaque_bool(("is", id(a) if isinstance(a, Opaque) else repr(a), id(b) if isinstance(b, Opaque) else repr(b)), "is?")
+            return False
         if isinstance(a, SV) and isinstance(b, SV) and a.k in BOOLK and b.k in BOOLK:
             return a.e == b.e
         if isinstance(a, bool) or isinstance(b, bool):
@@ -1199,6 +1320,9 @@ class Interp:
 
     def contains(self, cont, x):
         cont = self.unwrap(cont)
+        if self.lenient and (isinstance(cont, Opaque) or (isinstance(x, Opaque) and not isinstance(cont, (SDict, SList)))):
+            kx = id(x) if isinstance(x, (Opaque, Obj)) else repr(x)
+            return self.opaque_bool(("in", id(cont), kx), "in?")
         if hasattr(cont, "guard"):
             cont.guard(self)
         if isinstance(cont, PList):
